@@ -20,7 +20,8 @@ import (
 
 func init() {
 	register(&Check{
-		ID: "C02", Level: "exploration", Configs: []string{"hostile", "hostile", "lossy"},
+		ID:      "C02",
+		Tenants: func(c *core.Ctx, i int) tenant { return tenantPacket(c, "unmarshal") }, Level: "exploration", Configs: []string{"hostile", "hostile", "lossy"},
 		Run: runC02, PrePass: prepassC02,
 		QuickRuns:   400_000,
 		ThoroughSec: 600,
